@@ -159,16 +159,17 @@ func (s *Session) destroyer(all bool) (*apply.Destroyer, error) {
 
 // RunResult is what one run produced.
 type RunResult struct {
-	Out      Outcome
-	Addrs    []FAddr     // fault addresses the run touched
-	Plan     []planGroup // the plan announced by the init event
-	Waits    []WSched    // probe runs: the reconciling deliveries that were sent
-	NReq     int
-	Failures []string // hangs, leaks, unexpected requests (implementation or harness level)
-	Hung     bool     // the watchdog fired: the pipeline may still be running against the store
-	LateSent int      // late status deliveries the runner took
-	srv      *Server
-	text     string
+	Out        Outcome
+	Addrs      []FAddr     // fault addresses the run touched
+	Plan       []planGroup // the plan announced by the init event
+	Waits      []WSched    // probe runs: the reconciling deliveries that were sent
+	NReq       int
+	Failures   []string // hangs, leaks, unexpected requests (implementation or harness level)
+	Hung       bool     // the watchdog fired: the pipeline may still be running against the store
+	LateSent   int      // late status deliveries the runner took
+	SelfClosed int      // the scripted watcher closed its channel by itself after a fatal error
+	srv        *Server
+	text       string
 }
 
 // LateRequests returns the requests that reached the run's server after its
@@ -361,7 +362,7 @@ func execRun(st *Store, sc Scenario, auto bool, sess *Session) (res RunResult) {
 	})
 	res.Addrs, res.Plan, res.NReq = addrs, cons.initPlan, nreq
 	w.mu.Lock()
-	res.Waits, res.LateSent = w.autoWaits, w.lateSent
+	res.Waits, res.LateSent, res.SelfClosed = w.autoWaits, w.lateSent, w.selfClosed
 	w.mu.Unlock()
 	for _, u := range unexpected {
 		res.Failures = append(res.Failures, "unexpected request: "+u)
